@@ -19,6 +19,7 @@ ASSUMPTIONS = ['context switches happen only at pthread operations, system() and
                'the reference is the same build run with --no-parallel on the same package pair']
 NWL = {'quick': 14, 'thorough': 120}
 NSCHED = {'quick': 30, 'thorough': 160}
+NTORN = {'quick': 10, 'thorough': 40}
 
 
 def make_items(ctx, only=None):
@@ -81,7 +82,7 @@ def prepare_item(ctx, name, wl, variant=None):
     return {'name': name, 'wl': wl, 'p1': p1, 'p2': p2, 'ref': ref, 'nfiles': len(wl['files'])}
 
 
-def run_pkg(ctx, it, simt, parallel=True, variant=None, io_yield=False):
+def run_pkg(ctx, it, simt, parallel=True, variant=None, io_yield=False, torn=None):
     """one abipkgdiff run on the item's packages.  --self-check writes into the package directory itself (abixml/...): such
     a workload is copied into the run's private directory first, so that two runs executing at the same time on this
     machine never share files (the only concurrency is the simulated one)."""
@@ -100,6 +101,18 @@ def run_pkg(ctx, it, simt, parallel=True, variant=None, io_yield=False):
                 shutil.copyfile(src, dst)
         p1 = '@RUN@/' + os.path.basename(src)
     spec = K.spec(wl, p1, p2, simt, parallel=parallel, root=os.path.dirname(it['p1']))
+    if torn:
+        # one of the archives was cut short (a crashed copy): the run gets the fragment under the archive's name
+        src, frag = torn_fragment(it, torn)
+        if src not in spec['argv']:
+            raise C.InfraError('torn-archive plan: %s is not an argument of the run' % src)
+        spec['argv'] = ['@RUN@/' + os.path.basename(src) if a == src else a for a in spec['argv']]
+        inner = prepare
+
+        def prepare(run):
+            if inner:
+                inner(run)
+            open(os.path.join(run, os.path.basename(src)), 'wb').write(frag)
     if io_yield:
         # scheduling points at every open and close of a file under the run directory (package copy, extraction and cache directories)
         spec['simf'] = {'objects': [{'prefix': '@RUN@'}], 'faults': [], 'io_yield': 1, 'helper': 1}     # helper: abipkgdiff runs mkdir, tar, rm through system()
@@ -112,6 +125,14 @@ def run_pkg(ctx, it, simt, parallel=True, variant=None, io_yield=False):
     return ctx.run('abipkgdiff', spec, variant=variant, prepare=prepare, name=name)
 
 
+def torn_fragment(it, tn):
+    src = it['p1'] if tn['side'] == 1 else it['p2']
+    if tn.get('target') == 'debuginfo':
+        src = os.path.join(os.path.dirname(it['p1']), 'pkg-%s1-debuginfo.%s' % ('f' if tn['side'] == 1 else 's', it['wl']['format']))
+    body = open(src, 'rb').read()
+    return src, body[:max(1, len(body) * tn['permille'] // 1000)]
+
+
 def make_plans(ctx, tier, items):
     plans = []
     i = 0
@@ -122,14 +143,32 @@ def make_plans(ctx, tier, items):
             if rng.chance(1, 3) or (items[name]['wl'].get('self_check') and rng.chance(1, 2)):
                 p['io_yield'] = 1      # plain build: scheduling points at file opens and closes as well
             plans.append({'item': name, 'params': p})
+        wl = items[name]['wl']
+        if wl['format'] != 'dir' and not wl.get('self_check'):
+            # error paths under concurrency: one archive is a fragment, so an extraction task fails while the others go on;
+            # the reference is the --no-parallel run on the very same fragment
+            for k in range(NTORN[tier]):
+                rng = C.Prng(C.mix_seed(ctx.seed, 31, 5, i)); i += 1
+                plans.append({'item': name, 'params': {'simt': K.gen_simt(rng, items[name]['nfiles']),
+                                                      'torn': {'target': 'debuginfo' if wl.get('splitdbg') and rng.chance(1, 2) else 'main',
+                                                               'side': rng.choice([1, 2]), 'permille': rng.range(20, 980)}}})
     return plans
 
 
 def execute(ctx, it, params, variant=None):
     simt = dict(params['simt'])
     io = bool(params.get('io_yield'))
-    o = run_pkg(ctx, it, simt, variant='plain' if io else variant, io_yield=io)
+    tn = params.get('torn')
+    o = run_pkg(ctx, it, simt, variant='plain' if io else variant, io_yield=io, torn=tn)
     ref = it['ref']
+    if tn:
+        rk = ('tornref', it['name'], tn.get('target', 'main'), tn['side'], tn['permille'])
+        if rk not in ctx.memo:
+            r = run_pkg(ctx, it, {'seed': 1, 'policy': 0, 'nprocs': 1}, parallel=False, variant=variant, torn=tn)
+            if r.klass[0] != 'exit':
+                raise C.InfraError('the sequential reference run of %s on a torn archive died: %s %s' % (it['name'], r.klass, (r.stderr or b'')[-400:]))
+            ctx.memo[rk] = r
+        ref = ctx.memo[rk]
     st = o.res.get('simt', {})
     verdict, key = None, None
     races = K.tsan_race_key(o.stderr) if o.res.get('tsan_reports', 0) or b'ThreadSanitizer' in (o.stderr or b'') else None
@@ -159,7 +198,9 @@ def execute(ctx, it, params, variant=None):
         fired += ['signal-recipient-choice'] * st['signal_choices']
     if io:
         fired.append('io-scheduling-points')
-    return F.Result(verdict, key, fired, [(it['name'], st.get('sched_hash'))], digest=(o.exit, C.sha(o.stdout or b''), st.get('log_hash'), o.res.get('tsan_reports')),
+    if tn:
+        fired.append('media/torn-%s-archive' % tn.get('target', 'main'))
+    return F.Result(verdict, key, fired, [(it['name'], st.get('sched_hash')) + ((tn.get('target', 'main'), tn['side'], tn['permille']) if tn else ())], digest=(o.exit, C.sha(o.stdout or b''), st.get('log_hash'), o.res.get('tsan_reports')),
                     info={'exit': o.exit, 'workers': simt.get('nprocs'), 'policy': simt.get('policy'), 'steps': st.get('steps'), 'threads': st.get('threads'),
                           'max_enabled': st.get('max_enabled'), 'lock_contended': st.get('lock_contended'), 'io_yield': io,
                           'io_events': o.res.get('simf', {}).get('io_events')},
@@ -194,7 +235,7 @@ def shrink(ctx, it, params):
         import tempfile
         dpath = os.path.join(ctx.rundir, 'dec-%d.json' % os.getpid())
         t = dict(s, decisions_out=dpath)
-        run_pkg(ctx, it, t, variant='plain' if params.get('io_yield') else None, io_yield=bool(params.get('io_yield')))
+        run_pkg(ctx, it, t, variant='plain' if params.get('io_yield') else None, io_yield=bool(params.get('io_yield')), torn=params.get('torn'))
         try:
             dec = json.load(open(dpath))
             yield dict(params, simt=dict(s, decisions=[d[2] for d in dec], _defaults=[d[3] for d in dec]))
